@@ -1,67 +1,4 @@
-import json
-import re
-
-
-def _meta_lists(coq):
-    """the two observation lists of a `TMeta a b` term as python lists"""
-    body = coq[len("TMeta "):]
-    i = body.index("] [")
-
-    def parse(s):
-        return json.loads(s.replace("%Z", "").replace("(", "").replace(")", "").replace(";", ","))
-    return parse(body[:i + 1]), parse(body[i + 2:])
-
-
-def _strip_canon(toks):
-    # event = [kind, hash of the value encoding without the canonical-number bit, canonical bit]
-    return [t[:2] for t in toks]
-
-
-def _has(node, pred):
-    if isinstance(node, dict):
-        if pred(node):
-            return True
-        return any(_has(v, pred) for v in node.values())
-    if isinstance(node, list):
-        return any(_has(v, pred) for v in node)
-    return False
-
-
-def _flags(expected_text):
-    m = re.search(r"\)\s+(true|false)\s+(true|false)\s+(true|false)\s*\]?\s*$", expected_text.strip())
-    return m.groups() if m else None
-
-
-def f7_incdec(case, rec, exp):
-    """F7: only the canonical-representation bit of numbers differs, and the program has a ++/-- (frag: the
-    Gallina transcription of goja's unused-result ++/-- reproduces the implementation's observation)."""
-    if case.get("kind") == "frag":
-        fl = _flags(exp)
-        return bool(fl) and fl[0] == "true" and _has(case["prog"], lambda n: n.get("k") == "incdec")
-    if case.get("kind") == "meta" and rec.get("coq", "").startswith("TMeta "):
-        a, b = _meta_lists(rec["coq"])
-        return a != b and _strip_canon(a) == _strip_canon(b) and re.search(r"\+\+|--|[+\-*]= ", case["a"]) is not None
-    return False
-
-
-def f20_const_tdz(case, rec, exp):
-    """F20: a store to a const in its TDZ: TypeError observed where ReferenceError is specified; the transcription
-    of goja's check order reproduces the observation, the plain ++/-- transcription does not."""
-    if case.get("kind") != "frag":
-        return False
-    fl = _flags(exp)
-    return bool(fl) and fl[0] == "false" and fl[1] == "true" and \
-        _has(case["prog"], lambda n: n.get("k") in ("assign", "incdec") and n.get("x") in (7, 8))
-
-
-_NONSIMPLE = re.compile(r"\((?:[^()]*=[^()]*|[^()]*\.\.\.[^()]*|\[[^()]*\][^()]*)\) (?:=> )?\{ eval\(\"\"\);")
-
-
-def f21_eval_params(case, rec, exp):
-    """F21: evalvis rewrite, strict code, a function with default/rest/destructuring parameters got `eval("")`."""
-    return case.get("kind") == "meta" and case.get("rw") == "evalvis" and case.get("strict") is True and \
-        _NONSIMPLE.search(case.get("b", "").replace('\\"', '"')) is not None
-
+"""C02 check configuration. No open findings: F7, F18, F20, F21 were repaired in /repo (known/C02.json fixed)."""
 
 CFG = {
     "id": "C02",
@@ -87,9 +24,9 @@ CFG = {
              "wrap_block, wrap_iife, tostring_eval) x {strict, sloppy} x {global, function, eval}; both programs run in fresh "
              "runtimes, observation lists compared in Coq; non-trivial = (fragment) the program logged something, (pair) the two "
              "programs compiled to different instruction sequences (hook VerifC02CodeSig) and produced an event; distinct by case hash"),
-    "theorem_names": ["allocation_invisible", "allocation_invisible_pm", "alloc_all_stash_valid", "alloc_minimal_valid_example",
-                      "position_invisible_incdec_partial", "incdec_unused_refuted", "const_tdz_assign_refuted",
-                      "constfold_goja_refuted", "goja_or_const_left_balanced"],
+    "theorem_names": ["allocation_invisible", "allocation_invisible_pm", "alloc_all_stash_valid", "alloc_minimal_valid",
+                      "alloc_minimal_invisible", "alloc_example", "position_invisible", "position_example", "constfold_sound",
+                      "constfold_example", "fuel_monotone", "goja_and_const_left_balanced", "goja_or_const_left_balanced"],
     "allowed_axioms": [],
     "trusted_base": [
         "Coq 8.16.1 kernel + vm_compute (no native_compute); all theorems closed under the global context (no axioms)",
@@ -100,30 +37,26 @@ CFG = {
         "metamorphic rewrites are semantics-preserving by construction of the generator (argued per rewrite in meta.go), not by proof",
     ],
     "assumptions": [
-        "PARTIAL: the slot semantics is tied to goja only through the fragment correspondence; goja's actual allocation choice is not "
-        "extracted from the bytecode and checked against valid_alloc",
-        "PARTIAL: constant folding soundness (cf_stmt) and the minimal allocation's validity are evaluated per generated case "
-        "(model_selfcheck), not proved for all programs; position invisibility is proved for the ++/-- primitive only",
+        "PARTIAL: the slot semantics is tied to goja through the fragment correspondence and through the per-program bytecode check "
+        "(stage alloc_tie: every variable access compiled inside an inner function that resolves to an enclosing function's binding "
+        "uses a stash instruction), not by a proof about goja's compiler",
         "in the slot model a per-iteration copy of a frame-allocated loop variable takes a fresh slot (goja reuses the slot); popped "
         "frames are kept (they are unreachable: slots are addressed relative to the current frame only)",
         "fragment values: undefined, booleans, integers |n| <= 2^53, NaN, 10 string tags, closures, Reference/TypeError objects; "
-        "string concatenation and object identity are outside (such runs are not compared)",
+        "string concatenation and object identity are outside (such runs are not compared); constant folding is proved for the "
+        "definitional mode (PSpec) of the environment semantics",
     ],
-    "predicates": {
-        "C02.incdec_unused_nonnumber": f7_incdec,
-        "C02.const_tdz_assign_typeerror": f20_const_tdz,
-        "C02.eval_nonsimple_params_strict": f21_eval_params,
-    },
+    "predicates": {},
     "manifest": {
-        "text": ("proof (partial): for EVERY program of a core binding fragment (var/let/const with TDZ, blocks, closures, hoisted "
-                 "function declarations, per-iteration loop bindings, try/catch, ++/--) and EVERY allocation of bindings to frame slots "
-                 "or stash cells that satisfies goja's rule (referenced across a function boundary => stash), the slot semantics is "
-                 "observationally equal to the ECMA-262 environment-record semantics, fuel-for-fuel (allocation_invisible, by a "
-                 "Kripke-style simulation with a store injection; no axioms); the all-stash allocation is always valid, an invalid one "
-                 "provably misbehaves; goja's statement-position ++/--, const-in-TDZ assignment and constant-left && emission are "
-                 "refuted by witnesses. Tie to /repo on every run: ~1000 (quick) generated fragment programs compared with the model in "
-                 "Coq, ~2000 metamorphic (program, rewrite) pairs compared impl-vs-impl. NOT proved: constant-folding soundness and "
-                 "full-program position invisibility (tested per case only); goja's own allocation decisions are not read back."),
+        "text": ("proof (partial only in the tie): for EVERY program of a core binding fragment (var/let/const with TDZ, blocks, closures, "
+                 "hoisted function declarations, per-iteration loop bindings, try/catch, ++/--) and EVERY allocation of bindings to frame "
+                 "slots or stash cells that satisfies goja's rule (referenced across a function boundary => stash), the slot semantics is "
+                 "observationally equal to the ECMA-262 environment-record semantics, fuel-for-fuel (allocation_invisible, a Kripke-style "
+                 "simulation with a store injection); the all-stash and the minimal allocation are valid for every program; evaluating "
+                 "discarded-result expressions by the putOnStack=false variant changes nothing observable (position_invisible); constant "
+                 "folding preserves every non-fuel-exhausted run (constfold_sound, via fuel monotonicity); 13 theorems, no axioms. Tie to "
+                 "/repo on every run: generated fragment programs compared with the model in Coq, metamorphic (program, rewrite) pairs "
+                 "compared impl-vs-impl, and goja's actual stack/stash choice read from the bytecode of every fragment program."),
         "note": ("trusted: Coq kernel + vm_compute; the hand-written model; the Go harness and its printers; the argument that each "
                  "metamorphic rewrite preserves semantics per ECMA-262; the implementation is covered by correspondence on generated "
                  "programs, not by proof"),
